@@ -192,7 +192,10 @@ def check_find(m, f, rule):
         step = [f.get(o) for o in ii.o if const_int(o) is None]
         if not start or not step or not all(s is not None and s.op == 'add' and s.o[0] == ii.ref and const_int(s.o[1]) == 1 for s in step):
             bad.append('the loop does not count up from 0 in steps of 1')
-        if not pv.prove_at(('ult', ii.ref, '$1'), c):
+        below = pv.prove_at(('ult', ii.ref, '$1'), c)
+        if not below and start and step and ('ne', ii.ref, '$1') in pv.facts_at(c):
+            below = True      # counting up from 0 by 1 and stopping exactly at count never passes it
+        if not below:
             bad.append('the element read is not under index < count')
     for r in f.returns():
         for lf, facts_ok in _ret_leaves_with_facts(f, r, pv, c, idx):
